@@ -13,6 +13,11 @@ Vocabulary used in the statements
 * `Completed r` — `r` is neither `outOfDraws` nor `mismatch`, i.e. the draw list is a complete
   recording of a run of this program (every list recorded by the harness is);
 * `drawBudget k m = 10·m·(k+1) + 1`, `drawBudgetX m = 10·m·2 + 1` — "enough" draws;
+* `sysMaxsize = 2^63 − 1` — `sys.maxsize`: up to that many variables `sample_variables(n, k)` is ONE
+  `random.sample` draw; beyond, it is the code's rejection loop over `randint(1, n)` draws (`rejectVars`,
+  recursion over the draw list).  The shape theorems cover both branches.  The error theorems are `…_partial`
+  (hypothesis `n ≤ sysMaxsize`): beyond, the dense fallback raises OverflowError (defect C13-H1); the full
+  statements `OnlyValueError`, `ValueErrorIff` are refuted on the model (`onlyValueError_fails`, `valueErrorIff_fails`);
 * `allClauses k n planted` — the dense enumeration `all_clauses` of the code; `allClauses_spec` /
   `allClauses_nodup` show that it lists every clause over k distinct variables of 1..n that is
   compatible with the planted assignments exactly once, so its length IS "the number of clauses
@@ -101,19 +106,54 @@ example : Legal [.sample 3 2 [2, 0], .choice 2 0, .choice 2 1, .sample 3 2 [1, 2
 
 /-! ## T-C13.2 ValueError exactly when … -/
 
-/-- no Python exception other than ValueError can come out of `RandomKCNF` -/
-theorem randomKCNF_only_valueError (σ : Int → List Draw) (k n m : Nat) (seed : Option Int)
+/-- for ALL `n`: the only Python exceptions that can come out of `RandomKCNF` are ValueError and —
+beyond `sys.maxsize` variables, when the dense fallback is reached — OverflowError (defect C13-H1) -/
+theorem randomKCNF_error_kinds (σ : Int → List Draw) (k n m : Nat) (seed : Option Int)
     (planted : List (List Int)) (rng : List Draw) (e : Err) (hL : Legal (usedStream σ seed rng))
-    (h : randomKCNF σ k n m seed planted rng = .error (.py e)) : e = .valueError := by
+    (h : randomKCNF σ k n m seed planted rng = .error (.py e)) :
+    e = .valueError ∨ (e = .overflowError ∧ sysMaxsize < n) := by
   rcases randomKCNF_error h with ⟨h', _⟩ | ⟨_, h'⟩
-  · cases h'; rfl
-  · rcases sampleClauses_error hL h' with ⟨h'', _⟩ | ⟨h'', _⟩ | h'' <;> cases h''; rfl
+  · cases h'; exact Or.inl rfl
+  · rcases sampleClauses_error hL h' with ⟨h'', _⟩ | ⟨h'', _⟩ | h'' | ⟨h'', hb⟩
+    · cases h''; exact Or.inl rfl
+    · cases h''
+    · cases h''
+    · cases h''; exact Or.inr ⟨rfl, hb⟩
+
+/-- the FULL statement "no Python exception other than ValueError comes out of `RandomKCNF`" -/
+def OnlyValueError : Prop :=
+  ∀ (σ : Int → List Draw) (k n m : Nat) (seed : Option Int) (planted : List (List Int)) (rng : List Draw)
+    (e : Err), Legal (usedStream σ seed rng) → randomKCNF σ k n m seed planted rng = .error (.py e) →
+    e = .valueError
+
+/-- defect C13-H1: `RandomKCNF(0, 2**63, 2)` (one compatible clause, two requested) raises OverflowError,
+not ValueError: `all_clauses` hands `range(1, n+1)` to `itertools.combinations` -/
+theorem randomKCNF_huge_dense_overflow :
+    randomKCNF (fun _ => []) 0 (2 ^ 63) 2 none [] [] = .error (.py .overflowError) := by rfl
+
+/-- … so the full statement is FALSE of the code as it is -/
+theorem onlyValueError_fails : ¬ OnlyValueError := by
+  intro h
+  have := h (fun _ => []) 0 (2 ^ 63) 2 none [] [] .overflowError Legal.nil randomKCNF_huge_dense_overflow
+  cases this
+
+/-- up to `sys.maxsize` variables no Python exception other than ValueError can come out of `RandomKCNF`
+(partial: `OnlyValueError` restricted to `n ≤ sys.maxsize`; false beyond, see `onlyValueError_fails`) -/
+theorem randomKCNF_only_valueError_partial (σ : Int → List Draw) (k n m : Nat) (seed : Option Int)
+    (planted : List (List Int)) (rng : List Draw) (e : Err) (hS : n ≤ sysMaxsize)
+    (hL : Legal (usedStream σ seed rng))
+    (h : randomKCNF σ k n m seed planted rng = .error (.py e)) : e = .valueError := by
+  rcases randomKCNF_error_kinds σ k n m seed planted rng e hL h with h' | ⟨_, h'⟩
+  · exact h'
+  · omega
+
+example : (2 : Nat) ≤ sysMaxsize := by decide
 
 /-- T-C13.2 on every legal, complete draw list: ValueError exactly when `k > n` or `m` exceeds the
 number of clauses compatible with the planted assignments (`m = 0`, `k = 0` and the exact maximum
 included: nothing is assumed about `k n m`) -/
-theorem randomKCNF_valueError_iff (σ : Int → List Draw) (k n m : Nat) (seed : Option Int)
-    (planted : List (List Int)) (rng : List Draw) (hL : Legal (usedStream σ seed rng))
+theorem randomKCNF_valueError_iff_partial (σ : Int → List Draw) (k n m : Nat) (seed : Option Int)
+    (planted : List (List Int)) (rng : List Draw) (hS : n ≤ sysMaxsize) (hL : Legal (usedStream σ seed rng))
     (hC : Completed (randomKCNF σ k n m seed planted rng)) :
     randomKCNF σ k n m seed planted rng = .error (.py .valueError) ↔
       n < k ∨ (allClauses k n planted).length < m := by
@@ -121,8 +161,11 @@ theorem randomKCNF_valueError_iff (σ : Int → List Draw) (k n m : Nat) (seed :
   · intro h
     rcases randomKCNF_error h with ⟨_, h'⟩ | ⟨_, h'⟩
     · exact Or.inl h'
-    · rcases sampleClauses_error hL h' with ⟨_, h''⟩ | ⟨h'', _⟩ | h''
-      · exact h''
+    · rcases sampleClauses_error hL h' with ⟨_, h''⟩ | ⟨h'', _⟩ | h'' | ⟨h'', _⟩
+      · rcases h'' with h'' | ⟨h'', _⟩
+        · exact Or.inl h''
+        · exact Or.inr h''
+      · cases h''
       · cases h''
       · cases h''
   · intro hcond
@@ -136,18 +179,82 @@ theorem randomKCNF_valueError_iff (σ : Int → List Draw) (k n m : Nat) (seed :
     | error e =>
       rcases randomKCNF_error hr with ⟨h', _⟩ | ⟨_, h'⟩
       · rw [h']
-      · rcases sampleClauses_error hL h' with ⟨h'', _⟩ | ⟨h'', _⟩ | h''
+      · rcases sampleClauses_error hL h' with ⟨h'', _⟩ | ⟨h'', _⟩ | h'' | ⟨_, hb⟩
         · rw [h'']
         · rw [h''] at hr; exact absurd hr hC.1
         · rw [h''] at hr; exact absurd hr hC.2
+        · omega
+
+/-- for ALL `n`, on every legal draw list: a ValueError is never spurious — it means `k > n` or `m`
+exceeds the number of compatible clauses (the "only if" half of T-C13.2 holds beyond `sys.maxsize` too) -/
+theorem randomKCNF_valueError_only_if (σ : Int → List Draw) (k n m : Nat) (seed : Option Int)
+    (planted : List (List Int)) (rng : List Draw) (hL : Legal (usedStream σ seed rng))
+    (h : randomKCNF σ k n m seed planted rng = .error (.py .valueError)) :
+    n < k ∨ (allClauses k n planted).length < m := by
+  rcases randomKCNF_error h with ⟨_, h'⟩ | ⟨_, h'⟩
+  · exact Or.inl h'
+  · rcases sampleClauses_error hL h' with ⟨_, h''⟩ | ⟨h'', _⟩ | h'' | ⟨h'', _⟩
+    · rcases h'' with h'' | ⟨h'', _⟩
+      · exact Or.inl h''
+      · exact Or.inr h''
+    · cases h''
+    · cases h''
+    · cases h''
+
+/-- the FULL statement of T-C13.2 -/
+def ValueErrorIff : Prop :=
+  ∀ (σ : Int → List Draw) (k n m : Nat) (seed : Option Int) (planted : List (List Int)) (rng : List Draw),
+    Legal (usedStream σ seed rng) → Completed (randomKCNF σ k n m seed planted rng) →
+    (randomKCNF σ k n m seed planted rng = .error (.py .valueError) ↔
+      n < k ∨ (allClauses k n planted).length < m)
+
+/-- … is FALSE beyond `sys.maxsize` (defect C13-H1): k = 0, n = 2^63, m = 2 — one compatible clause,
+two requested, OverflowError instead of ValueError -/
+theorem valueErrorIff_fails : ¬ ValueErrorIff := by
+  intro h
+  have hr := randomKCNF_huge_dense_overflow
+  have := (h (fun _ => []) 0 (2 ^ 63) 2 none [] [] Legal.nil (by rw [hr]; exact ⟨by simp, by simp⟩)).2
+    (Or.inr (by rw [allClauses_count_unplanted]; simp))
+  rw [hr] at this
+  cases this
+
+/-- the whole defect region of T-C13.2 for `RandomKCNF`: beyond `sys.maxsize` variables, EVERY request that
+should fail with ValueError because `m` exceeds the number of compatible clauses fails with OverflowError
+instead (on every legal complete recording) -/
+theorem randomKCNF_huge_too_many_overflow (σ : Int → List Draw) (k n m : Nat) (seed : Option Int)
+    (planted : List (List Int)) (rng : List Draw) (hB : sysMaxsize < n) (hk : k ≤ n)
+    (hm : (allClauses k n planted).length < m) (hL : Legal (usedStream σ seed rng))
+    (hC : Completed (randomKCNF σ k n m seed planted rng)) :
+    randomKCNF σ k n m seed planted rng = .error (.py .overflowError) := by
+  cases hr : randomKCNF σ k n m seed planted rng with
+  | ok p =>
+    obtain ⟨F, rest⟩ := p
+    obtain ⟨_, cls, hs, _⟩ := randomKCNF_ok hr
+    obtain ⟨⟨hn, hmem, _⟩, hlen, _, _⟩ := sampleClauses_ok hL hs
+    have := length_le_allClauses hn hmem
+    omega
+  | error e =>
+    rcases randomKCNF_error hr with ⟨_, h'⟩ | ⟨_, h'⟩
+    · omega
+    · rcases sampleClauses_error hL h' with ⟨_, h''⟩ | ⟨h'', _⟩ | h'' | ⟨h'', _⟩
+      · rcases h'' with h'' | ⟨_, h''⟩ <;> omega
+      · rw [h''] at hr; exact absurd hr hC.1
+      · rw [h''] at hr; exact absurd hr hC.2
+      · rw [h'']
+
+/-- non-vacuity: the hypotheses hold for k = 0, n = 2^63, m = 2 (no draws needed) -/
+example : randomKCNF (fun _ => []) 0 (2 ^ 63) 2 none [] [] = .error (.py .overflowError) :=
+  randomKCNF_huge_too_many_overflow _ 0 (2 ^ 63) 2 none [] [] (by decide) (by omega)
+    (by rw [allClauses_count_unplanted]; simp) Legal.nil
+    (by rw [randomKCNF_huge_dense_overflow]; exact ⟨by simp, by simp⟩)
 
 /-- … and otherwise the run returns a formula (never anything else) -/
-theorem randomKCNF_ok_iff (σ : Int → List Draw) (k n m : Nat) (seed : Option Int)
-    (planted : List (List Int)) (rng : List Draw) (hL : Legal (usedStream σ seed rng))
+theorem randomKCNF_ok_iff_partial (σ : Int → List Draw) (k n m : Nat) (seed : Option Int)
+    (planted : List (List Int)) (rng : List Draw) (hS : n ≤ sysMaxsize) (hL : Legal (usedStream σ seed rng))
     (hC : Completed (randomKCNF σ k n m seed planted rng)) :
     (∃ F rest, randomKCNF σ k n m seed planted rng = .ok (F, rest)) ↔
       k ≤ n ∧ m ≤ (allClauses k n planted).length := by
-  have hiff := randomKCNF_valueError_iff σ k n m seed planted rng hL hC
+  have hiff := randomKCNF_valueError_iff_partial σ k n m seed planted rng hS hL hC
   cases hr : randomKCNF σ k n m seed planted rng with
   | ok p =>
     obtain ⟨F, rest⟩ := p
@@ -160,46 +267,52 @@ theorem randomKCNF_ok_iff (σ : Int → List Draw) (k n m : Nat) (seed : Option 
     intro hk
     have he : e = .py .valueError := by
       cases e with
-      | py e' => rw [randomKCNF_only_valueError σ k n m seed planted rng e' hL hr]
+      | py e' => rw [randomKCNF_only_valueError_partial σ k n m seed planted rng e' hS hL hr]
       | outOfDraws => exact absurd rfl hC.1
       | mismatch => exact absurd rfl hC.2
     rw [he] at hiff
     have := hiff.1 rfl
     omega
 
-/-- "enough": a legal stream of at least `10·m·(k+1) + 1` draws never runs out -/
+/-- "enough": up to `sys.maxsize` variables a legal stream of at least `10·m·(k+1) + 1` draws never runs
+out.  (Beyond, `sample_variables` is a rejection loop without a bound: no finite number of legal draws is
+enough for EVERY legal stream — see `sample_variables_terminates` for what makes it end.) -/
 theorem randomKCNF_enough_draws (σ : Int → List Draw) (k n m : Nat) (seed : Option Int)
-    (planted : List (List Int)) (rng : List Draw) (hL : Legal (usedStream σ seed rng))
+    (planted : List (List Int)) (rng : List Draw) (hS : n ≤ sysMaxsize) (hL : Legal (usedStream σ seed rng))
     (hlen : drawBudget k m ≤ (usedStream σ seed rng).length) :
     randomKCNF σ k n m seed planted rng ≠ .error .outOfDraws := by
   intro h
   rcases randomKCNF_error h with ⟨h', _⟩ | ⟨_, h'⟩
   · cases h'
-  · rcases sampleClauses_error hL h' with ⟨h'', _⟩ | ⟨_, h''⟩ | h''
+  · rcases sampleClauses_error hL h' with ⟨h'', _⟩ | ⟨_, h''⟩ | h'' | ⟨h'', _⟩
     · cases h''
-    · omega
+    · have := h'' hS; omega
+    · cases h''
     · cases h''
 
 /-- a successful run consumes at most `drawBudget k m` draws -/
 theorem randomKCNF_draws_consumed (σ : Int → List Draw) (k n m : Nat) (seed : Option Int)
-    (planted : List (List Int)) (rng rest : List Draw) (F : Formula) (hL : Legal (usedStream σ seed rng))
+    (planted : List (List Int)) (rng rest : List Draw) (F : Formula) (hS : n ≤ sysMaxsize)
+    (hL : Legal (usedStream σ seed rng))
     (h : randomKCNF σ k n m seed planted rng = .ok (F, rest)) :
     (usedStream σ seed rng).length ≤ rest.length + drawBudget k m := by
   obtain ⟨_, cls, hs, _⟩ := randomKCNF_ok h
-  exact (sampleClauses_ok hL hs).2.2.2
+  exact (sampleClauses_ok hL hs).2.2.2 hS
 
 /-- the dense path needs exactly one draw -/
 theorem dense_path_one_draw (k n m : Nat) (planted : List (List Int)) (draws rest : List Draw)
     (cls : List Clause) (hL : Legal draws) (h : denseClauses k n m planted draws = .ok (cls, rest)) :
-    draws.length = rest.length + 1 ∧ m ≤ (allClauses k n planted).length := by
-  obtain ⟨⟨hn, hm, _⟩, hlen, _, e⟩ := denseClauses_ok hL h
+    draws.length = rest.length + 1 ∧ m ≤ (allClauses k n planted).length ∧ n ≤ sysMaxsize := by
+  obtain ⟨⟨hn, hm, _⟩, hlen, _, e, hS⟩ := denseClauses_ok hL h
   have := length_le_allClauses hn hm
-  exact ⟨e, by omega⟩
+  exact ⟨e, by omega, hS⟩
 
-/-- the hypotheses of `randomKCNF_valueError_iff` are satisfiable for EVERY input: there is a legal
-draw list of at most `drawBudget k m` draws on which the run is complete -/
+/-- the hypotheses of `randomKCNF_valueError_iff_partial` are satisfiable for EVERY input (any `n`): there
+is a legal draw list of at most `drawBudget (2·k) m` draws (`drawBudget k m` up to `sys.maxsize` variables)
+on which the run is complete -/
 theorem randomKCNF_completing_draws_exist (σ : Int → List Draw) (k n m : Nat) (planted : List (List Int)) :
-    ∃ rng, Legal rng ∧ rng.length ≤ drawBudget k m ∧ Completed (randomKCNF σ k n m none planted rng) := by
+    ∃ rng, Legal rng ∧ (rng.length ≤ drawBudget (2 * k) m ∧ (n ≤ sysMaxsize → rng.length ≤ drawBudget k m)) ∧
+      Completed (randomKCNF σ k n m none planted rng) := by
   by_cases hk : n < k
   · refine ⟨[], Legal.nil, by simp, ?_⟩
     rw [randomKCNF_eq]; simp only [hk, if_true]
@@ -214,9 +327,37 @@ theorem randomKCNF_completing_draws_exist (σ : Int → List Draw) (k n m : Nat)
       rw [hs] at hw
       exact ⟨fun h => hw.1 (by simpa using h), fun h => hw.2 (by simpa using h)⟩
 
+/-- termination of `sample_variables(n, k)` beyond `sys.maxsize`: the rejection loop
+`while len(chosen) < k: chosen.add(random.randint(1, n))` has no bound of its own, but it ends (and returns)
+on EVERY list of `randint(1, n)` answers among which there are `k` distinct values — however many repeats
+come in between -/
+theorem sample_variables_terminates (k n : Nat) (hn : sysMaxsize < n) (hk : k ≤ n) (ds : List Draw)
+    (hds : ∀ d ∈ ds, ∃ v, d = .randint 1 n v) (vs : List Int) (hvs : vs.Nodup) (hlen : vs.length = k)
+    (hmem : ∀ v ∈ vs, Draw.randint 1 n v ∈ ds) :
+    ∃ sel rest, drawVars k n ds = .ok (sel, rest) := by
+  rw [drawVars_big (by omega), if_neg (by omega)]
+  obtain ⟨sel, rest, h⟩ := rejectVars_terminates (k := k) (n := n) ds [] vs hds hvs
+    (fun v hv => ⟨by simp, hmem v hv⟩) (by simp [hlen])
+  exact ⟨isort sel, rest, by rw [RandM.bind_apply, h]; rfl⟩
+
+/-- … and what it returns is then (legal answers) a strictly increasing `k`-list over `1..n` -/
+theorem sample_variables_shape (k n : Nat) (ds rest : List Draw) (sel : List Int) (hL : Legal ds)
+    (h : drawVars k n ds = .ok (sel, rest)) :
+    sel.length = k ∧ sel.Pairwise (· < ·) ∧ ∀ x ∈ sel, 1 ≤ x ∧ x ≤ (n : Int) :=
+  mem_combos_vars.1 (drawVars_ok hL h).2.1
+
+/-- non-vacuity: n = 2^63, k = 2, answers 7, 7 (repeat, not added), 3 -/
+example : drawVars 2 (2 ^ 63) [.randint 1 (2 ^ 63) 7, .randint 1 (2 ^ 63) 7, .randint 1 (2 ^ 63) 3, .choice 2 0] =
+    .ok ([3, 7], [.choice 2 0]) := by rfl
+
+/-- non-vacuity of the shape theorems beyond `sys.maxsize`: a recorded run with k = 2, n = 2^63, m = 1 -/
+example : (randomKCNF (fun _ => []) 2 (2 ^ 63) 1 none [[3]]
+      [.randint 1 (2 ^ 63) 7, .randint 1 (2 ^ 63) 7, .randint 1 (2 ^ 63) 3, .choice 2 0, .choice 2 1]).toOption.map
+        (fun r => r.1.toCNF.clauses) = some [[3, -7]] := by decide
+
 /-- arbitrary integer arguments: `non_negative_int` rejects negatives with ValueError first -/
-theorem randomKCNFInt_valueError_iff (σ : Int → List Draw) (k n m : Int) (seed : Option Int)
-    (planted : List (List Int)) (rng : List Draw) (hL : Legal (usedStream σ seed rng))
+theorem randomKCNFInt_valueError_iff_partial (σ : Int → List Draw) (k n m : Int) (seed : Option Int)
+    (planted : List (List Int)) (rng : List Draw) (hS : n ≤ (sysMaxsize : Int)) (hL : Legal (usedStream σ seed rng))
     (hC : Completed (randomKCNFInt σ k n m seed planted rng)) :
     randomKCNFInt σ k n m seed planted rng = .error (.py .valueError) ↔
       n < 0 ∨ m < 0 ∨ k < 0 ∨ n < k ∨ ((allClauses k.toNat n.toNat planted).length : Int) < m := by
@@ -225,7 +366,7 @@ theorem randomKCNFInt_valueError_iff (σ : Int → List Draw) (k n m : Int) (see
   · simp only [hneg, if_true, RandM.raise_apply, true_iff]
     omega
   · simp only [hneg, if_false] at hC ⊢
-    rw [randomKCNF_valueError_iff σ _ _ _ seed planted rng hL hC]
+    rw [randomKCNF_valueError_iff_partial σ _ _ _ seed planted rng (by omega) hL hC]
     omega
 
 /-! ## T-C13.3 k-XOR -/
@@ -316,23 +457,46 @@ example : TotalOn 3 [1, -2, 3] := by
   intro v h1 h2
   rcases (by omega : v = 1 ∨ v = 2 ∨ v = 3) with rfl | rfl | rfl <;> simp
 
-/-- T-C13.3c no Python exception other than ValueError -/
-theorem randomKXOR_only_valueError (σ : Int → List Draw) (k n m : Nat) (seed : Option Int)
+/-- T-C13.3c for ALL `n`: ValueError, or — beyond `sys.maxsize` variables, when the dense fallback is
+reached — OverflowError (defect C13-H1), and nothing else -/
+theorem randomKXOR_error_kinds (σ : Int → List Draw) (k n m : Nat) (seed : Option Int)
     (planted : List (List Int)) (hT : ∀ a ∈ planted, TotalOn n a) (rng : List Draw) (e : Err)
     (hL : Legal (usedStream σ seed rng))
-    (h : randomKXORSys σ k n m seed planted rng = .error (.py e)) : e = .valueError := by
+    (h : randomKXORSys σ k n m seed planted rng = .error (.py e)) :
+    e = .valueError ∨ (e = .overflowError ∧ sysMaxsize < n) := by
   rw [randomKXORSys_eq] at h
   by_cases hk : n < k
-  · simp only [hk, if_true, Except.error.injEq, RErr.py.injEq] at h; exact h.symm
+  · simp only [hk, if_true, Except.error.injEq, RErr.py.injEq] at h; exact Or.inl h.symm
   · simp only [hk, if_false] at h
     obtain ⟨full, hfull, _, _⟩ := allGoodParities_total (k := k) hT
-    rcases sampleParities_error hT hfull hL h with ⟨h'', _⟩ | ⟨h'', _⟩ | h'' <;> cases h''; rfl
+    rcases sampleParities_error hT hfull hL h with ⟨h'', _⟩ | ⟨h'', _⟩ | h'' | ⟨h'', hb⟩
+    · cases h''; exact Or.inl rfl
+    · cases h''
+    · cases h''
+    · cases h''; exact Or.inr ⟨rfl, hb⟩
 
-/-- T-C13.3d ValueError exactly when `k > n` or `m` exceeds the number of compatible parities -/
-theorem randomKXOR_valueError_iff (σ : Int → List Draw) (k n m : Nat) (seed : Option Int)
+/-- defect C13-H1 for k-XOR: `RandomKXOR(0, 2**63, 3)` (two compatible parities, three requested; the
+30 `randint(0,1)` answers are irrelevant) raises OverflowError, not ValueError -/
+theorem randomKXOR_huge_dense_overflow :
+    randomKXORSys (fun _ => []) 0 (2 ^ 63) 3 none [] (List.replicate 30 (.randint 0 1 0)) =
+      .error (.py .overflowError) := by rfl
+
+/-- T-C13.3c (partial: `n ≤ sys.maxsize`; false beyond, `randomKXOR_huge_dense_overflow`) no Python
+exception other than ValueError -/
+theorem randomKXOR_only_valueError_partial (σ : Int → List Draw) (k n m : Nat) (seed : Option Int)
+    (planted : List (List Int)) (hT : ∀ a ∈ planted, TotalOn n a) (rng : List Draw) (e : Err)
+    (hS : n ≤ sysMaxsize) (hL : Legal (usedStream σ seed rng))
+    (h : randomKXORSys σ k n m seed planted rng = .error (.py e)) : e = .valueError := by
+  rcases randomKXOR_error_kinds σ k n m seed planted hT rng e hL h with h' | ⟨_, h'⟩
+  · exact h'
+  · omega
+
+/-- T-C13.3d (partial: `n ≤ sys.maxsize`; beyond, the "if" half fails — `randomKXOR_huge_dense_overflow`,
+where `full.length = 2 < 3 = m`) ValueError exactly when `k > n` or `m` exceeds the number of compatible parities -/
+theorem randomKXOR_valueError_iff_partial (σ : Int → List Draw) (k n m : Nat) (seed : Option Int)
     (planted : List (List Int)) (hT : ∀ a ∈ planted, TotalOn n a) (rng : List Draw)
     (full : List Parity) (hfull : allGoodParities k n planted = .ok full)
-    (hL : Legal (usedStream σ seed rng))
+    (hS : n ≤ sysMaxsize) (hL : Legal (usedStream σ seed rng))
     (hC : Completed (randomKXORSys σ k n m seed planted rng)) :
     randomKXORSys σ k n m seed planted rng = .error (.py .valueError) ↔ n < k ∨ full.length < m := by
   rw [randomKXORSys_eq] at hC ⊢
@@ -341,10 +505,11 @@ theorem randomKXOR_valueError_iff (σ : Int → List Draw) (k n m : Nat) (seed :
   · simp only [hk, if_false, false_or] at hC ⊢
     constructor
     · intro h
-      rcases sampleParities_error hT hfull hL h with ⟨_, h''⟩ | ⟨h'', _⟩ | h''
-      · rcases h'' with h'' | h''
+      rcases sampleParities_error hT hfull hL h with ⟨_, h''⟩ | ⟨h'', _⟩ | h'' | ⟨h'', _⟩
+      · rcases h'' with h'' | ⟨h'', _⟩
         · exact absurd h'' hk
         · exact h''
+      · cases h''
       · cases h''
       · cases h''
     · intro hcond
@@ -357,14 +522,59 @@ theorem randomKXOR_valueError_iff (σ : Int → List Draw) (k n m : Nat) (seed :
         have := length_le_of_nodup_subset hn (fun p hp => (h2 p).2 (hm p hp))
         omega
       | error e =>
-        rcases sampleParities_error hT hfull hL hr with ⟨h'', _⟩ | ⟨h'', _⟩ | h''
+        rcases sampleParities_error hT hfull hL hr with ⟨h'', _⟩ | ⟨h'', _⟩ | h'' | ⟨_, hb⟩
         · rw [h'']
         · rw [h''] at hr; exact absurd hr hC.1
         · rw [h''] at hr; exact absurd hr hC.2
+        · omega
 
-/-- "enough" for k-XOR: `10·m·2 + 1` legal draws never run out -/
-theorem randomKXOR_enough_draws (σ : Int → List Draw) (k n m : Nat) (seed : Option Int)
+/-- the whole defect region for `RandomKXOR`: beyond `sys.maxsize` variables every request with `m` above the
+number of compatible parities fails with OverflowError instead of ValueError -/
+theorem randomKXOR_huge_too_many_overflow (σ : Int → List Draw) (k n m : Nat) (seed : Option Int)
     (planted : List (List Int)) (hT : ∀ a ∈ planted, TotalOn n a) (rng : List Draw)
+    (full : List Parity) (hfull : allGoodParities k n planted = .ok full)
+    (hB : sysMaxsize < n) (hk : k ≤ n) (hm : full.length < m) (hL : Legal (usedStream σ seed rng))
+    (hC : Completed (randomKXORSys σ k n m seed planted rng)) :
+    randomKXORSys σ k n m seed planted rng = .error (.py .overflowError) := by
+  rw [randomKXORSys_eq] at hC ⊢
+  have hk' : ¬ n < k := by omega
+  simp only [hk', if_false] at hC ⊢
+  cases hr : sampleParities k n m planted (usedStream σ seed rng) with
+  | ok p =>
+    obtain ⟨sys, rest⟩ := p
+    obtain ⟨⟨hn, hmem, _⟩, hlen, _, _⟩ := sampleParities_ok hT hfull hL hr
+    obtain ⟨full', h1, h2, _⟩ := allGoodParities_total (k := k) hT
+    rw [hfull] at h1; cases h1
+    have := length_le_of_nodup_subset hn (fun p hp => (h2 p).2 (hmem p hp))
+    omega
+  | error e =>
+    rcases sampleParities_error hT hfull hL hr with ⟨_, h''⟩ | ⟨h'', _⟩ | h'' | ⟨h'', _⟩
+    · rcases h'' with h'' | ⟨_, h''⟩ <;> omega
+    · rw [h''] at hr; exact absurd hr hC.1
+    · rw [h''] at hr; exact absurd hr hC.2
+    · rw [h'']
+
+/-- for ALL `n`: a ValueError of `RandomKXOR` is never spurious -/
+theorem randomKXOR_valueError_only_if (σ : Int → List Draw) (k n m : Nat) (seed : Option Int)
+    (planted : List (List Int)) (hT : ∀ a ∈ planted, TotalOn n a) (rng : List Draw)
+    (full : List Parity) (hfull : allGoodParities k n planted = .ok full)
+    (hL : Legal (usedStream σ seed rng))
+    (h : randomKXORSys σ k n m seed planted rng = .error (.py .valueError)) : n < k ∨ full.length < m := by
+  rw [randomKXORSys_eq] at h
+  by_cases hk : n < k
+  · exact Or.inl hk
+  · simp only [hk, if_false] at h
+    rcases sampleParities_error hT hfull hL h with ⟨_, h''⟩ | ⟨h'', _⟩ | h'' | ⟨h'', _⟩
+    · rcases h'' with h'' | ⟨h'', _⟩
+      · exact Or.inl h''
+      · exact Or.inr h''
+    · cases h''
+    · cases h''
+    · cases h''
+
+/-- "enough" for k-XOR up to `sys.maxsize` variables: `10·m·2 + 1` legal draws never run out -/
+theorem randomKXOR_enough_draws (σ : Int → List Draw) (k n m : Nat) (seed : Option Int)
+    (planted : List (List Int)) (hT : ∀ a ∈ planted, TotalOn n a) (rng : List Draw) (hS : n ≤ sysMaxsize)
     (hL : Legal (usedStream σ seed rng)) (hlen : drawBudgetX m ≤ (usedStream σ seed rng).length) :
     randomKXORSys σ k n m seed planted rng ≠ .error .outOfDraws := by
   intro h
@@ -373,15 +583,17 @@ theorem randomKXOR_enough_draws (σ : Int → List Draw) (k n m : Nat) (seed : O
   · simp [hk] at h
   · simp only [hk, if_false] at h
     obtain ⟨full, hfull, _, _⟩ := allGoodParities_total (k := k) hT
-    rcases sampleParities_error hT hfull hL h with ⟨h'', _⟩ | ⟨_, h''⟩ | h''
+    rcases sampleParities_error hT hfull hL h with ⟨h'', _⟩ | ⟨_, h''⟩ | h'' | ⟨h'', _⟩
     · cases h''
-    · omega
+    · have := h'' hS; omega
+    · cases h''
     · cases h''
 
 /-- completing legal draw lists exist for every k-XOR input with total planted assignments -/
 theorem randomKXOR_completing_draws_exist (σ : Int → List Draw) (k n m : Nat) (planted : List (List Int))
     (hT : ∀ a ∈ planted, TotalOn n a) :
-    ∃ rng, Legal rng ∧ rng.length ≤ drawBudgetX m ∧ Completed (randomKXORSys σ k n m none planted rng) := by
+    ∃ rng, Legal rng ∧ (rng.length ≤ drawBudget k m + retryBudget m ∧ (n ≤ sysMaxsize → rng.length ≤ drawBudgetX m)) ∧
+      Completed (randomKXORSys σ k n m none planted rng) := by
   by_cases hk : n < k
   · refine ⟨[], Legal.nil, by simp, ?_⟩
     rw [randomKXORSys_eq]; simp only [hk, if_true]
